@@ -448,6 +448,50 @@ func c04Case(c *core.Case) {
 				c.Violation("remainder-accounting/"+implKind(im.name), fmt.Sprintf("%s: the remainder holds %s, the non-matching items are %s", im.name, sigString(ra, rb), sigString(restAttrs, restBlocks)), nil)
 				return
 			}
+			// (a') the body of every block handed out — by the exhaustive step, by the
+			// partial step and by the step on the remainder — holds what was written
+			// inside that block, whatever the enclosing steps consumed
+			for _, set := range []struct {
+				where  string
+				blocks hcl.Blocks
+			}{{"Content", c1.Blocks}, {"PartialContent", p1.Blocks}, {"Content of the remainder", rc.Blocks}} {
+				for _, hb := range set.blocks {
+					var written *gen.Block
+					n := 0
+					for _, it := range im.order {
+						if it.Block != nil && it.Block.Type == hb.Type && fmt.Sprintf("%q", nfcAll(it.Block.Labels)) == fmt.Sprintf("%q", nfcAll(hb.Labels)) {
+							written = it.Block
+							n++
+						}
+					}
+					if n != 1 {
+						continue // (several written blocks share type and labels)
+					}
+					ns := &hcl.BodySchema{}
+					wa, wb := map[string]bool{}, map[string][]string{}
+					seenT := map[string]bool{}
+					for _, it := range written.Body.Items {
+						if it.Attr != nil {
+							ns.Attributes = append(ns.Attributes, hcl.AttributeSchema{Name: it.Attr.Name})
+							wa[it.Attr.Name] = true
+						} else {
+							if !seenT[it.Block.Type] {
+								seenT[it.Block.Type] = true
+								ns.Blocks = append(ns.Blocks, hcl.BlockHeaderSchema{Type: it.Block.Type, LabelNames: labelNames(len(it.Block.Labels))})
+							}
+							wb[it.Block.Type] = append(wb[it.Block.Type], fmt.Sprintf("%q", nfcAll(it.Block.Labels)))
+						}
+					}
+					nc, nd := hb.Body.Content(ns)
+					c.Evals(1)
+					na, nb := contentSigOf(nc)
+					if nd.HasErrors() || sigString(na, nb) != sigString(wa, wb) {
+						c.Violation("nested-body-accounting/"+implKind(im.name), fmt.Sprintf("%s: the body of block %s %q returned by %s holds %s (diagnostics: %s); written inside that block: %s", im.name, hb.Type, hb.Labels, set.where, sigString(na, nb), trunc(diagStr(nd), 200), sigString(wa, wb)), nil)
+						return
+					}
+					c.Count("nested-bodies-accounted")
+				}
+			}
 			// (e) JustAttributes of a remainder sees only what remains
 			blocksOnly := &hcl.BodySchema{}
 			for _, t := range gen.SortedKeys(blockSet) {
